@@ -6,6 +6,7 @@ import (
 	"fmt"
 	"go/token"
 	"go/types"
+	"regexp"
 	"sort"
 	"strings"
 
@@ -310,62 +311,64 @@ func (R *Run) checkSplit(sf *ssa.Function, construct string) {
 		constK int64     // len(data) >= K
 	}
 	var bounds []bound
-	factEdges(sf, func(e Edge, f Fact) {
-		if f.Kind != "truth" {
-			return
-		}
-		b, ok := f.V.(*ssa.BinOp)
-		if !ok {
-			return
-		}
-		// normalise to: len(data) OP y   (holds)
-		op := b.Op
-		var other ssa.Value
-		switch {
-		case isLenData(b.X):
-			other = b.Y
-		case isLenData(b.Y):
-			other = b.X
-			switch op {
-			case token.LSS:
-				op = token.GTR
-			case token.GTR:
-				op = token.LSS
-			case token.LEQ:
-				op = token.GEQ
-			case token.GEQ:
-				op = token.LEQ
+	factEdges(sf, func(e Edge, f0 Fact) {
+		for _, f := range impliedFacts(f0, 0) {
+			if f.Kind != "truth" {
+				continue
 			}
-		default:
-			return
-		}
-		if !f.Holds {
-			switch op {
-			case token.LSS:
-				op = token.GEQ
-			case token.GEQ:
-				op = token.LSS
-			case token.GTR:
-				op = token.LEQ
-			case token.LEQ:
-				op = token.GTR
+			b, ok := f.V.(*ssa.BinOp)
+			if !ok {
+				continue
+			}
+			// normalise to: len(data) OP y   (holds)
+			op := b.Op
+			var other ssa.Value
+			switch {
+			case isLenData(b.X):
+				other = b.Y
+			case isLenData(b.Y):
+				other = b.X
+				switch op {
+				case token.LSS:
+					op = token.GTR
+				case token.GTR:
+					op = token.LSS
+				case token.LEQ:
+					op = token.GEQ
+				case token.GEQ:
+					op = token.LEQ
+				}
 			default:
-				return
+				continue
 			}
-		}
-		// now: len(data) op other holds on edge e
-		switch op {
-		case token.GEQ: // len >= other
-			if k, ok := constInt(other); ok {
-				bounds = append(bounds, bound{e: e, constK: k})
-			} else {
-				bounds = append(bounds, bound{e: e, val: other})
+			if !f.Holds {
+				switch op {
+				case token.LSS:
+					op = token.GEQ
+				case token.GEQ:
+					op = token.LSS
+				case token.GTR:
+					op = token.LEQ
+				case token.LEQ:
+					op = token.GTR
+				default:
+					continue
+				}
 			}
-		case token.GTR: // len > other
-			if k, ok := constInt(other); ok {
-				bounds = append(bounds, bound{e: e, constK: k + 1})
-			} else {
-				bounds = append(bounds, bound{e: e, val: other})
+			// now: len(data) op other holds on edge e
+			switch op {
+			case token.GEQ: // len >= other
+				if k, ok := constInt(other); ok {
+					bounds = append(bounds, bound{e: e, constK: k})
+				} else {
+					bounds = append(bounds, bound{e: e, val: other})
+				}
+			case token.GTR: // len > other
+				if k, ok := constInt(other); ok {
+					bounds = append(bounds, bound{e: e, constK: k + 1})
+				} else {
+					bounds = append(bounds, bound{e: e, val: other})
+				}
 			}
 		}
 	})
@@ -386,7 +389,7 @@ func (R *Run) checkSplit(sf *ssa.Function, construct string) {
 			return k <= minLen(b)
 		}
 		for _, bd := range bounds {
-			if bd.val != nil && (bd.val == v || P.sym(bd.val) == P.sym(v)) && dominatedBy(bd.e, b) {
+			if bd.val != nil && (bd.val == v || P.sym(bd.val) == P.sym(v) || P.symInl(bd.val, 0) == P.symInl(v, 0)) && dominatedBy(bd.e, b) {
 				return true
 			}
 		}
@@ -636,4 +639,103 @@ func returnTuples(fn *ssa.Function) []retTuple {
 		expand(ret, vals, ret.Block(), 0)
 	}
 	return out
+}
+
+// symInl: the symbolic form of v with calls of small pure repository helpers (one block, one result, no calls but
+// conversions and encoding/binary readers) replaced by what they return, so that `frameLen(data)` tested in one place
+// and the same expression spelled out in another compare equal.
+func (P *Prog) symInl(v ssa.Value, d int) string {
+	if d > 6 {
+		return P.sym(v)
+	}
+	switch x := v.(type) {
+	case *ssa.Convert:
+		return P.symInl(x.X, d+1)
+	case *ssa.ChangeType:
+		return P.symInl(x.X, d+1)
+	case *ssa.BinOp:
+		if x.Op == token.ADD {
+			return P.symInl(x.X, d+1) + "+" + P.symInl(x.Y, d+1)
+		}
+		return "(" + P.symInl(x.X, d+1) + x.Op.String() + P.symInl(x.Y, d+1) + ")"
+	case *ssa.Call:
+		fn := x.Call.StaticCallee()
+		if fn == nil || len(fn.Blocks) != 1 || !P.isRepoPkg(pkgOf(fn)) || fn.Signature.Results().Len() != 1 || len(fn.Params) != len(x.Call.Args) {
+			break
+		}
+		pure := true
+		for _, ci := range callsIn(fn) {
+			n := calleeName(ci.Common())
+			if !strings.HasPrefix(n, "builtin.") && !strings.HasPrefix(n, "(encoding/binary.") {
+				pure = false
+			}
+		}
+		rets := returnsOf(fn)
+		if !pure || len(rets) != 1 {
+			break
+		}
+		r := P.symInl(rets[0].Results[0], d+1)
+		for i, prm := range fn.Params {
+			re := regexp.MustCompile(`param:` + regexp.QuoteMeta(prm.Name()) + `\b`)
+			arg := P.symInl(x.Call.Args[i], d+1)
+			r = re.ReplaceAllLiteralString(r, arg)
+		}
+		return r
+	}
+	return P.sym(v)
+}
+
+// impliedFacts: the comparison facts a fact implies. `p` true with p = `a && b` (in SSA: a phi whose operands are the
+// constant false, arriving from the block that tested a, and b) implies a and b; dually `p` false with p = `a || b`
+// implies !a and !b. Other facts imply themselves.
+func impliedFacts(f Fact, depth int) []Fact {
+	out := []Fact{f}
+	if f.Kind != "truth" || depth > 4 {
+		return out
+	}
+	phi, ok := f.V.(*ssa.Phi)
+	if !ok {
+		return out
+	}
+	if bt, isB := phi.Type().Underlying().(*types.Basic); !isB || bt.Info()&types.IsBoolean == 0 {
+		return out
+	}
+	// operands that are the absorbing constant (false for &&-true, true for ||-false) and the one that is not
+	var rest []int
+	var absorbed []int
+	for i, e := range phi.Edges {
+		if c, isC := e.(*ssa.Const); isC && c.Value != nil && (c.Value.String() == "true") == !f.Holds {
+			absorbed = append(absorbed, i)
+			continue
+		}
+		rest = append(rest, i)
+	}
+	if len(rest) != 1 || len(absorbed) == 0 {
+		return out
+	}
+	out = append(out, impliedFacts(ifFacts(&ssa.If{Cond: phi.Edges[rest[0]]}).withHolds(f.Holds), depth+1)...)
+	for _, i := range absorbed {
+		pred := phi.Block().Preds[i]
+		iff, isIf := pred.Instrs[len(pred.Instrs)-1].(*ssa.If)
+		if !isIf || len(pred.Succs) != 2 {
+			continue
+		}
+		ft := ifFacts(iff)
+		// the edge pred→phi block was NOT taken (it would have made the phi the absorbing constant)
+		if pred.Succs[0] == phi.Block() && pred.Succs[1] != phi.Block() {
+			ft.Holds = !ft.Holds
+		} else if !(pred.Succs[1] == phi.Block() && pred.Succs[0] != phi.Block()) {
+			continue
+		}
+		out = append(out, impliedFacts(ft, depth+1)...)
+	}
+	return out
+}
+
+func (f Fact) withHolds(want bool) Fact {
+	// ifFacts describes the true edge; the fact for "the condition evaluates to want"
+	if !want {
+		f.Holds = !f.Holds
+	}
+	return f
 }
